@@ -23,5 +23,8 @@ def check(ctx):
     cropping.crop_effects(ctx, 'C05-R12')
     # R13: no hit is altered by the screening either (= C15-R2: casts and column drops only)
     screening.normalisation(ctx, 'C05-R13', 'C05-R13')
+    # R14: 'every non-detection belongs to none': non-detections stay NaN through the scalings (= C19-R1), whichever mask
+    # the labels are written through
+    scaling.nan_safe(ctx, 'C05-R14')
     ctx.undecided += ['that scikit-learn returns one label per row; that every mixture component is populated '
                       '(run-time assert in layer.ncomp_from_gmm); that k sub-components give k layers numerically']
